@@ -288,7 +288,9 @@ class Model:
     def ty_of(self, t, module, features, stack=()):
         k = t["k"]
         if k == "ref":
-            return self.ty_of(t["inner"], module, features, stack)
+            r = dict(self.ty_of(t["inner"], module, features, stack))
+            r["ref"] = True
+            return r
         if k == "tuple":
             if not t["elems"]:
                 return {"leaf": "unit"}
@@ -571,11 +573,12 @@ class Model:
             raise Untranslatable("floor_char_boundary", "window is not a literal")
         return v
 
-    def manual_impl(self, trait, name):
+    def manual_impl(self, trait, name, module=None):
         for imp in self.impls:
             tr = (imp["trait"] or "").replace(" ", "")
             if tr.split("<")[0] == trait and imp["self_ty"].split("<")[0].strip() == name:
-                return imp
+                if module is None or imp["module"] == module:
+                    return imp
         return None
 
     def custom_ty(self, it, features):
@@ -645,7 +648,8 @@ class Model:
             if cap is None:
                 raise Untranslatable(key, "known_formats field not found")
             ety = self.named_ty(et["named"], features)
-            return {"leaf": "attFmtPref", "de": ety["de"], "cap": cap, "caps": {"ser": False, "de": True}}
+            return {"leaf": "attFmtPref", "de": ety["de"], "cap": cap, "elem": et["named"],
+                    "caps": {"ser": False, "de": True}}
         raise Untranslatable(key, "struct without serde derive and no hand model")
 
     # ------------------------------------------------------------------ whole schema
@@ -662,10 +666,26 @@ class Model:
             d = derives(attrs)
             serdeish = d & {"Serialize", "Deserialize", "SerializeIndexed", "DeserializeIndexed",
                             "Serialize_repr", "Deserialize_repr"}
-            manual = self.manual_impl("Deserialize", it["name"]) or self.manual_impl("Serialize", it["name"])
+            manual = (self.manual_impl("Deserialize", it["name"], it["module"])
+                      or self.manual_impl("Serialize", it["name"], it["module"]))
             if not serdeish and not manual:
                 continue
             out[key] = self.named_ty(key, features)
+            has_default = "Default" in d or self.manual_impl("Default", it["name"], it["module"]) is not None
+            builder = None
+            for c in self.by_name.get(it["name"] + "Builder", []):
+                if c["kind"] == "struct" and c["module"] == it["module"]:
+                    builder = [f["name"] for f, _ in self.fields_of(c, features)]
+            out[key]["rust"] = {
+                "non_exhaustive": any(a["p"] == "non_exhaustive" for a in attrs),
+                "default": has_default,
+                "builder": builder,
+                "lifetime": "'" in it.get("generics", ""),
+                "kind": it["kind"],
+                "pub_fields": [f["name"] for f, _ in self.fields_of(it, features) if f["vis"].strip() == "pub"]
+                if it["kind"] == "struct" else [],
+                "all_fields": [f["name"] for f, _ in self.fields_of(it, features)] if it["kind"] == "struct" else [],
+            }
         return out
 
     def enum_payloads(self, enum_name, module, features):
@@ -705,8 +725,22 @@ class Model:
         return r
 
     def schema(self, features):
-        return {"cfg": cfg_id(features), "features": sorted(features),
-                "types": self.all_wire_types(features), "roles": self.roles(features)}
+        types = self.all_wire_types(features)
+        roles = {k: v for k, v in self.roles(features).items() if v in types}
+
+        def variants(enum):
+            out = []
+            for vname, ty in self.enum_payloads(enum, "ctap2", features):
+                if ty is None:
+                    out.append([vname, None])
+                elif "named" in ty and ty["named"] in types:
+                    out.append([vname, ty["named"]])
+                else:
+                    out.append([vname, "vendor"])
+            return out
+
+        return {"cfg": cfg_id(features), "features": sorted(features), "types": types, "roles": roles,
+                "variants": {"request_variants": variants("Request"), "response_variants": variants("Response")}}
 
     # ------------------------------------------------------------------ tables
     def tables(self):
